@@ -289,6 +289,25 @@ theorem callCfg_perm (c c' : Config V) (key : Str) (hn : (c.map (·.path)).Nodup
       have := eq_of_nodup_paths c hn e' he'c e he hpath
       rw [← hv, ← hv', this]
 
+theorem sortByLen_fixed : ∀ (c : Config V), Desc c → sortByLen c = c
+  | [], _ => rfl
+  | y :: ys, h => by
+    have hy := List.pairwise_cons.mp h
+    have ih := sortByLen_fixed ys hy.2
+    simp only [sortByLen, List.foldr_cons] at ih ⊢
+    rw [ih]
+    cases ys with
+    | nil => rfl
+    | cons z zs =>
+      have := hy.1 z (by simp)
+      simp [insertByLen, this]
+
+/-- the driver sorts every table once per request and hands the sorted table to the look-up: the
+answers are those for the table as generated -/
+theorem callCfg_presorted (c : Config V) (key : Str) : callCfg (sortByLen c) key = callCfg c key := by
+  unfold callCfg
+  rw [sortByLen_fixed _ (desc_sortByLen c)]
+
 /-- **The nearest class of the family answers** (`family(cls)`: the class itself, then its bases depth
 first), **in the first directory of the chain that has an entry for any class of the family.** -/
 theorem chainLookup_first (pre : List (Config V)) (c : Config V) (post : List (Config V))
